@@ -396,3 +396,31 @@ Definition scalar_agrees (img : image) (o : op) (v : Z) : bool :=
   | IOk r => natlist_eqb (ishape r) [] && zlist_eqb (idata r) [v]
   | IErr _ => false
   end.
+
+(* ------------------------------------------------------------------ ImageList.from_image *)
+(* drop_io_dim(slice.coordmap, out_ax_name); dpair = io_axis_indices(slice.coordmap, out_ax_name)
+   (oracle, recorded from the running call); list.pop raises for an index out of range *)
+Definition drop_out_dim (cm : zaff) (dpair : option nat * option nat) : res zaff :=
+  match snd dpair with
+  | Some o => if Nat.ltb o (cs_ndim (arng cm)) then zdrop_io_dim cm (fst dpair) (Some o) true else Err EValue
+  | None => zdrop_io_dim cm (fst dpair) None true
+  end.
+
+(* element k of ImageList.from_image(image, axis, dropout); (in_ax, out_ax) =
+   io_axis_indices(image.coordmap, axis) (oracle).  The element is the k-th item of
+   iter_axis(image, in_ax); with dropout its coordmap is drop_io_dim of THAT item's coordmap *)
+Definition image_list_item (img : image) (in_ax out_ax : option nat) (dropout : bool) (k : nat)
+           (dpair : option nat * option nat) : ires image :=
+  match in_ax with
+  | None => IErr IAxis
+  | Some a =>
+    ibind (iter_axis_item img (AInt (Z.of_nat a)) [] k) (fun it =>
+    match (if dropout then out_ax else None) with
+    | None => IOk it
+    | Some _ => ibind (lift (drop_out_dim (icmap it) dpair)) (fun cm => mk_image (ishape it) (idata it) cm)
+    end)
+  end.
+
+Definition list_item_agrees (img : image) (in_ax out_ax : option nat) (dropout : bool) (k : nat)
+           (dpair : option nat * option nat) (expected : ires image) : bool :=
+  ires_eqb (image_list_item img in_ax out_ax dropout k dpair) expected.
